@@ -351,7 +351,8 @@ def check_cli(ctx, rng, ntrees, runs_per_tree):
         # diagnostics: only the walker's messages about links (loops, dangling targets) under -L are expected; each is
         # determined by its path, so the two runs must print the same multiset of lines
         e1 = canon_err(r1["err"])
-        unexpected = [l for l in e1 if l[0] == "other" or not j["follow"]]
+        unexpected = [l for l in e1 if l[0] == "other" or (l[0] == "nothing searched" and not j.get("maxsize"))
+                      or (l[0] in ("loop", "nofile") and not j["follow"])]
         if unexpected:
             ctx.violation("diagnostics in an error-free tree: %r" % unexpected[:2], replay, nfi=True)
             continue
@@ -467,6 +468,9 @@ def canon_err(err):
         m = re.match(rb"rg: (?:IO error for operation on )?(\S+?): (?:IO error for operation on \S+: )?No such file or directory", l)
         if m:
             res.append(("nofile", os.path.normpath(m.group(1).decode())))
+            continue
+        if l.startswith(b"rg: No files were searched") or l.startswith(b"Running with --debug will show"):
+            res.append(("nothing searched", ""))          # e.g. --max-filesize below every file's size
             continue
         res.append(("other", l.decode("latin1")))
     return sorted(res)
